@@ -326,6 +326,14 @@ class Check:
     def note_inconclusive(self, what):
         self.inconclusive.append(what)
 
+    def beyond(self, what):
+        """An observation about behaviour that no listed property constrains (the specification covers more than the list):
+        recorded in the evidence and printed as a NOTE; never a VIOLATION, never affects the exit code."""
+        self.cov.setdefault('beyond_listed_properties', [])
+        if len(self.cov['beyond_listed_properties']) < 50:
+            self.cov['beyond_listed_properties'].append(what)
+        print(f'NOTE: {self.pid} (beyond the listed properties) {what}')
+
     def violation(self, key, what, replay_obj=None):
         """key: stable identification of the failing input/call site (matched against known_findings)."""
         for f in self.known:
